@@ -88,6 +88,15 @@ func genHistory(g *Gen, w *bufio.Writer, t *Ty, o histOpts) {
 	} else {
 		fmt.Fprintf(w, "mk r %s %s %s\n", route, t, v)
 	}
+	genHistoryBody(g, w, t, v, o)
+}
+
+// genHistoryFrom emits only the steps of a history on an existing root handle "r" holding v.
+func genHistoryFrom(g *Gen, w *bufio.Writer, t *Ty, v *Val, o histOpts) {
+	genHistoryBody(g, w, t, v, o)
+}
+
+func genHistoryBody(g *Gen, w *bufio.Writer, t *Ty, v *Val, o histOpts) {
 	root := &shadow{name: "r", t: t, v: v}
 	handles := []*shadow{root}
 	nh := 0
